@@ -35,6 +35,12 @@ mod context;
 mod store;
 mod dependency;
 
+/// Verification hook: re-exports of crate-internal items that the /verif machinery exercises directly.
+#[cfg(feature = "gohla_pie_verif")]
+pub mod verif_hooks {
+  pub use crate::trait_object::task::OutputCheckerObj;
+}
+
 /// Trait alias for types that are used as values: types that can be cloned, debug formatted, and contain no
 /// non-`'static` references. We use this as an alias for trait bounds and super-traits.
 pub trait Value: Clone + Debug + 'static {}
